@@ -417,6 +417,10 @@ func (l *lexer) scan() {
 						case "style":
 							l.tag.ctx = ast.ContextCSS
 						}
+					} else if l.ctx == ast.ContextHTML && !l.noParseShow && p+1 < len(l.src) && l.src[p] == '{' && l.src[p+1] == '{' {
+						// <{{ name }}: the tag name is shown in the tag context.
+						l.ctx = ast.ContextTag
+						l.tag.typ = false
 					}
 					continue
 				}
